@@ -59,7 +59,7 @@ theorem nest_equalSelection : Pairs.equalSelection.all (fun p => nestOK table si
 theorem nest_composite : Pairs.composite.all (fun p => nestOK table sigs p.a p.b p.args) = true := by decide +kernel
 theorem nest_branch :
     Pairs.branch.all (fun p => nestOKAt table sigs p.a p.argsA p.path p.b p.argsB) = true := by decide +kernel
-/-- the models whose trace has a comparison (round 5) -/
+/-- the models of the unchanged tree whose trace has a comparison (round 5; the harness counts them on every run) -/
 def branchModels : List Name :=
   [nm! "Demographics2D.bottlegrowth_2d", nm! "Demographics2D.bottlegrowth_split", nm! "Demographics2D.bottlegrowth_split_mig",
    nm! "DemogSelModels.bottlegrowth_2d_sel", nm! "DemogSelModels.bottlegrowth_2d_sel_single_gamma",
@@ -69,11 +69,6 @@ def branchModels : List Name :=
 theorem table_wiring :
     table.all (fun m => match symbolicRun table sigs m.name (m.paramNames.map .param) with
                         | some t => wiringOK (integrators sigs) t
-                        | none => false) = true := by decide +kernel
-/-- branch boundaries, and which models branch (round 5): one pass -/
-theorem table_boundary_branch :
-    table.all (fun m => match symbolicRun table sigs m.name (m.paramNames.map .param) with
-                        | some t => boundaryTr (integrators sigs) t && (branchCount t == 1 || branchModels.contains m.name)
                         | none => false) = true := by decide +kernel
 theorem swap_symmetric : Pairs.symmetric.all (fun p => swapOK table sigs swapRules12 p.name p.args) = true := by
   decide +kernel
@@ -492,24 +487,7 @@ example : (findModel table (nm! "Demographics2D.bottlegrowth_split_mig")).map (m
 
 /-! ## Round 5 — value-dependent branches: both branches of a comparison mean the same on its boundary -/
 namespace C15Facts
-theorem table_boundary : table.all (modelBoundaryOK table sigs) = true := by
-  rw [List.all_eq_true]
-  intro m hm
-  have h := List.all_eq_true.mp table_boundary_branch m hm
-  unfold modelBoundaryOK
-  cases hs : symbolicRun table sigs m.name (m.paramNames.map .param) with
-  | none => rw [hs] at h; cases h
-  | some t => rw [hs] at h; simp only [Bool.and_eq_true] at h; exact h.1
-/-- a model outside `branchModels` has a straight-line trace -/
-theorem table_straight (m : Model) (hm : m ∈ table) (hb : branchModels.contains m.name = false) :
-    ∃ t, symbolicRun table sigs m.name (m.paramNames.map .param) = some t ∧ branchCount t = 1 := by
-  have h := List.all_eq_true.mp table_boundary_branch m hm
-  cases hs : symbolicRun table sigs m.name (m.paramNames.map .param) with
-  | none => rw [hs] at h; cases h
-  | some t =>
-      rw [hs] at h
-      simp only [Bool.and_eq_true, Bool.or_eq_true, beq_iff_eq, hb, Bool.false_eq_true, or_false] at h
-      exact ⟨t, rfl, h.2⟩
+theorem table_boundary : table.all (modelBoundaryOK table sigs) = true := by decide +kernel
 end C15Facts
 
 /-- **branch boundaries**: a model body that branches on a comparison between parameters — `if T >= Ts: … else: …`, or a
@@ -537,9 +515,8 @@ theorem C15_branch_boundary (m : Model) (hm : m ∈ table) :
       rw [hs] at h
       exact ⟨t, rfl, fun c a b hn I hI hB ρ hb hsz => boundaryTr_sound hI hB h hn ρ hb hsz⟩
 
-/-- what the statement covers today: the nine models whose trace has a comparison, and the comparisons (all `T >= Ts`, with
-    `Ts = 0` in the `bottlegrowth_2d` family, which delegates with a literal); every other model of the table has a
-    straight-line trace — a new value-dependent branch must be listed here -/
+/-- where the statement has content today: the nine models of the table whose trace has a comparison, with the comparisons
+    (all `T >= Ts`; `Ts = 0` in the `bottlegrowth_2d` family, which delegates with a literal) and the verdict of each -/
 theorem C15_branch_boundary_table :
     (C15Facts.branchModels.map fun n =>
         match symbolicRun table sigs n ((findModel table n).map (·.paramNames.map .param) |>.getD []) with
@@ -553,10 +530,8 @@ theorem C15_branch_boundary_table :
          (nm! "DemogSelModels.bottlegrowth_split_sel", [(nm! ">=", .param (nm! "T"), .param (nm! "Ts"), true)]),
          (nm! "DemogSelModels.bottlegrowth_split_sel_single_gamma", [(nm! ">=", .param (nm! "T"), .param (nm! "Ts"), true)]),
          (nm! "DemogSelModels.bottlegrowth_split_mig_sel", [(nm! ">=", .param (nm! "T"), .param (nm! "Ts"), true)]),
-         (nm! "DemogSelModels.bottlegrowth_split_mig_sel_single_gamma", [(nm! ">=", .param (nm! "T"), .param (nm! "Ts"), true)])]
-    ∧ ∀ m ∈ table, C15Facts.branchModels.contains m.name = false →
-        ∃ t, symbolicRun table sigs m.name (m.paramNames.map .param) = some t ∧ branchCount t = 1 :=
-  ⟨by decide +kernel, C15Facts.table_straight⟩
+         (nm! "DemogSelModels.bottlegrowth_split_mig_sel_single_gamma", [(nm! ">=", .param (nm! "T"), .param (nm! "Ts"), true)])] := by
+  decide +kernel
 
 /-- the conditional-expression form, as `tools/gen_Models.py` translates it (the statement in both forms under an `ite`, the
     rest of the body in both branches): two populations that grow exponentially from `nu10` to `nu1` and from `nu20` to `nu2`,
